@@ -464,11 +464,11 @@ func (brr *BalanceRR) simpleBalance() (*backend.BfeBackend, error) {
 }
 
 func (brr *BalanceRR) stickyBalance(key []byte) (*backend.BfeBackend, error) {
-	candidates := make(BackendList, 0, brr.Len())
-	totalWeight := 0
-
 	brr.Lock()
 	defer brr.Unlock()
+
+	candidates := make(BackendList, 0, len(brr.backends))
+	totalWeight := 0
 
 	// select available candidates
 	brr.ensureSortedUnlocked()
